@@ -58,6 +58,21 @@ MissingSplits(ref, cmp) == MissS(S(ref), S(cmp))
 WRF(a, b) == WRFe(Enc(a), Enc(b))
 Euclid2(a, b) == Euclid2e(Enc(a), Enc(b))
 
+\* ------------------------------------------------------------ magnitude of the lengths
+\* (a) scale: all lengths multiplied by k: the distances scale by k (k * k for the squared Euclidean distance)
+Scaled(g, k) == [g EXCEPT !.len = [x \in 1..g.n |-> IF g.len[x] < 0 THEN -1 ELSE k * g.len[x]]]
+\* (b) large lengths with small differences: length[x] = g.hi[x] * Base + g.len[x] units, Base symbolic and larger
+\* than every sum of the small parts that occurs.  Values are pairs <<multiple of Base, small part>>.
+HiGraph(g) == [g EXCEPT !.len = [x \in 1..g.n |-> IF g.len[x] < 0 THEN -1 ELSE g.hi[x]]]
+AbsPair(dh, dl) == IF dh > 0 \/ (dh = 0 /\ dl >= 0) THEN <<dh, dl>> ELSE <<-dh, -dl>>
+WRFBig(h1, l1, h2, l2) ==          \* h: split |-> multiples of Base, l: split |-> small part (same domains)
+    LET U == DOMAIN l1 \cup DOMAIN l2
+        f == [s \in U |-> AbsPair(LenIn(h1, s) - LenIn(h2, s), LenIn(l1, s) - LenIn(l2, s))]
+    IN <<SumFn(U, [s \in U |-> f[s][1]]), SumFn(U, [s \in U |-> f[s][2]])>>
+SameHi(h1, h2) == \A s \in DOMAIN h1 \cup DOMAIN h2 : LenIn(h1, s) = LenIn(h2, s)
+\* the same tree with a concrete base
+Concrete(g, base) == [g EXCEPT !.len = [x \in 1..g.n |-> IF g.len[x] < 0 THEN -1 ELSE g.hi[x] * base + g.len[x]]]
+
 \* ------------------------------------------------------------ definedness of the weighted distances
 MissingLen(g) == {x \in Nodes(g) \ {g.seed} : g.len[x] < 0}
 HasAllLengths(g) == MissingLen(g) = {}
